@@ -48,6 +48,12 @@ def step (st : Unit) (j : Json) : Unit × List String :=
       let J : JarEnv := { clientIdMatches := jBool v "clientid", configOK := jBool v "configok",
                           clientKey := fun _ => if jBool v "clientkey" then some "K" else none }
       jarValidate Facts.C17.supportedAlgs E J info
+    | "vcjwt" =>
+      -- the harness resolved (kid, or the issuer when kid is absent): `keyfound` is about that lookup
+      let E : Env := { resolve := fun _ => if jBool v "keyfound" then some "K" else none, embeddedKey := fun _ => none,
+                       verifies := fun _ _ _ => jBool v "verified", verifiesSplit := fun _ _ _ => false }
+      let didOf := fun (kid : String) => (kid.splitOn "#").headD ""
+      vcJwtSignature Facts.C17.supportedAlgs E (jStr j "issuer") didOf info
     | "parsejws" =>
       let found := jBools v "keyfound"
       let ver := jBools v "verified"
